@@ -3,7 +3,8 @@
 check runs from a scratch copy of /verif with REDUINO_REPO pointing at that worktree.  usage: seed_matrix_scratch.py <seed ids...>"""
 import json, os, re, shutil, subprocess, sys
 
-WT, VC = "/tmp/sm_wt", "/tmp/sm_verif"
+TAG = os.environ.get("SM_TAG", "")          # several matrices may run side by side
+WT, VC = "/tmp/sm_wt" + TAG, "/tmp/sm_verif" + TAG
 SRC = os.environ.get("SM_SRC", "/verif")   # the copy of the machinery to run (a development copy while /verif is in use)
 subprocess.run(f"git -C /repo worktree remove --force {WT}", shell=True, capture_output=True)
 subprocess.run(f"git -C /repo worktree add -q --detach {WT} HEAD", shell=True, check=True)
